@@ -25,3 +25,17 @@ Definition Striped (K C : nat) (s : list nat) (st : sseq) : Prop :=
   slen st = length s /\
   forall r c, r < seq_rows C (length s) + swrap st -> c < C ->
     cell K (mat st) r c = nth (c * seq_rows C (length s) + r) s (wild K).
+
+(* The wording of the property: R = ceil(L/C) sequence rows, symbol i sits at row
+   i mod R, column i / R, every other cell of the sequence rows holds the wildcard,
+   look-ahead row k is matrix row k shifted left by one column (wildcard in the last
+   column).  Equivalent to Striped (SpecProofs.Striped_Placed / Placed_Striped). *)
+Definition Placed (K C : nat) (s : list nat) (st : sseq) : Prop :=
+  let R := seq_rows C (length s) in
+  wf_matrix C (mat st) /\
+  length (mat st) = R + swrap st /\
+  slen st = length s /\
+  (forall i, i < length s -> cell K (mat st) (i mod R) (i / R) = nth i s (wild K)) /\
+  (forall r c, r < R -> c < C -> length s <= c * R + r -> cell K (mat st) r c = wild K) /\
+  (forall k, k < swrap st -> nth (R + k) (mat st) [] = shift_row K (nth k (mat st) [])).
+
